@@ -869,19 +869,9 @@ func (r *Reader) processParagraph(p paragraphXML) parsedParagraph {
 		parsed.IndentFirst = resolved.IndentFirst
 	}
 
-	// Extract text
-	var textParts []string
-
-	// Direct text content
-	if p.Text != "" {
-		textParts = append(textParts, p.Text)
-	}
-
-	// Text from spans
+	// Formatting runs from the top-level spans
 	for _, span := range p.Spans {
 		if span.Text != "" {
-			textParts = append(textParts, span.Text)
-
 			// Create run for formatting
 			pr := parsedRun{Text: span.Text}
 			if r.styleResolver != nil {
@@ -898,7 +888,8 @@ func (r *Reader) processParagraph(p paragraphXML) parsedParagraph {
 		}
 	}
 
-	parsed.Text = strings.Join(textParts, "")
+	// p.Text is the complete inline text in document order (see decodeInline)
+	parsed.Text = p.Text
 
 	return parsed
 }
@@ -928,22 +919,8 @@ func (r *Reader) processHeading(h headingXML) parsedParagraph {
 		}
 	}
 
-	// Extract text
-	var textParts []string
-
-	// Direct text content
-	if h.Text != "" {
-		textParts = append(textParts, h.Text)
-	}
-
-	// Text from spans
-	for _, span := range h.Spans {
-		if span.Text != "" {
-			textParts = append(textParts, span.Text)
-		}
-	}
-
-	parsed.Text = strings.Join(textParts, "")
+	// h.Text is the complete inline text in document order (see decodeInline)
+	parsed.Text = h.Text
 
 	return parsed
 }
